@@ -38,6 +38,7 @@ class Run:
         self.tier = os.environ.get("VERIF_TIER", "quick")
         if argv and "--tier" in argv:
             self.tier = argv[argv.index("--tier") + 1]
+            os.environ["VERIF_TIER"] = self.tier
         if self.tier not in ("quick", "thorough"):
             self.tier = "quick"
         try:
